@@ -419,6 +419,12 @@ pub fn gen_cases(transport: &str, opts: &Opts, rng: &mut Rng) -> Vec<Case> {
             }
         }
     }
+    // (h) many complete messages in one write (more than any queue between the transport task and
+    //     its consumer holds), then silence
+    for n in [33usize, 40, 100, 300] {
+        let ms: Vec<Vec<u8>> = (0..n).map(|i| format!("<m{i}/>").into_bytes()).collect();
+        cases.push(Case { transport: transport.into(), chunks: vec![wire(&ms)], end: End::Quiet });
+    }
     // (g) very large messages (1 MiB + 10 bytes, 2.2 MB) immediately followed by a small one in the
     //     same write: whatever is done differently above some size must not lose the bytes read past
     //     the delimiter
